@@ -249,6 +249,28 @@ func runConfine(o *Options, sp *Specs, ev *Evidence) (int, *Evidence) {
 				if !ok {
 					return true
 				}
+				// a map the caller handed in through a shared options field (dsc.opts.Inputs) stays the
+				// caller's: the library may read it while the constructor runs, not from its goroutine
+				if inner, ok := ast.Unparen(sel.X).(*ast.SelectorExpr); ok {
+					if _, isMap := types.Unalias(info.TypeOf(sel)).Underlying().(*types.Map); isMap {
+						if s2 := info.Selections[inner]; s2 != nil && s2.Kind() == types.FieldVal {
+							rt2 := s2.Recv()
+							if p2, ok := types.Unalias(rt2).(*types.Pointer); ok {
+								rt2 = p2.Elem()
+							}
+							if rn2, _ := types.Unalias(rt2).(*types.Named); rn2 != nil && rn2.Origin() == named.Origin() && shared[inner.Sel.Name] {
+								ctorPhase := inCtor[fi.key] && (goPos[fi.key] == token.NoPos || sel.Pos() < goPos[fi.key])
+								nOb++
+								if (inGoroutine[fi.key] || fromOthers[fi.key]) && !ctorPhase {
+									violations = append(violations, fmt.Sprintf("%s.%s#confine:%s.%s:in:%s: the map %s belongs to the caller; it is read in %s after the constructor may have returned (a later write of the caller races with it) (%s)",
+										strings.TrimPrefix(c.Pkg, modRoot+"/"), c.Type, inner.Sel.Name, sel.Sel.Name, strings.TrimPrefix(fi.name(), strings.TrimPrefix(c.Pkg, modRoot+"/")+"."), types.ExprString(sel), fi.name(), pkg.Fset.Position(sel.Pos()).String()))
+								} else {
+									nDis++
+								}
+							}
+						}
+					}
+				}
 				s := info.Selections[sel]
 				if s == nil || s.Kind() != types.FieldVal {
 					return true
